@@ -38,12 +38,12 @@ const (
 
 // Ctx is the loaded, type-checked program under analysis.
 type Ctx struct {
-	errSinkCache map[*types.Func]int
+	errSinkCache  map[*types.Func]int
 	errSinkFields map[types.Object]bool
-	Repo  string
-	Fset  *token.FileSet
-	Roots []*packages.Package          // packages of llir/llvm given on the load line
-	All   map[string]*packages.Package // every package of the closure, by path
+	Repo          string
+	Fset          *token.FileSet
+	Roots         []*packages.Package          // packages of llir/llvm given on the load line
+	All           map[string]*packages.Package // every package of the closure, by path
 
 	// lazily built
 	ssaProg  *ssa.Program
